@@ -307,6 +307,15 @@ def c09(tier):
             g.append(run1(long_(20, enc_alt13(33000), mb60(rng.randrange(1, 2048), rng.randint(1, 1023), rng.randint(1, 250), rng.randint(-187, 187) or 2, rng.randint(-187, 187) or -2), a)))
             g.append(run1(df17(5, a, me_velocity(1, rng.getrandbits(1), rng.randint(1, 1023), rng.getrandbits(1), rng.randint(1, 1023), rng.getrandbits(1), rng.randint(1, 511)))))
         groups.append(g)
+    # straight after surface position reports (the aircraft has just left the ground): no Comm-B reply in between
+    for k, opts in enumerate(OPTSETS * (1 if tier == 'quick' else 10)):
+        a = 0x4b6c00 + k
+        ys_, xs_ = cpr_encode(50.03, 8.57, 0)
+        g = [reset(opts), run1(df11(5, a))]
+        for _ in range(3):
+            g += [run1(df17(5, a, me_surface(rng.randint(5, 8), rng.randint(1, 124), 1, rng.getrandbits(7), 0, ys_, xs_))) for _ in range(2)]
+            g += [run1(df17(5, a, me_velocity(rng.choice([1, 1, 2]), rng.getrandbits(1), rng.randint(1, 1023), rng.getrandbits(1), rng.randint(1, 1023), rng.getrandbits(1), rng.randint(1, 511)))) for _ in range(2)]
+        groups.append(g)
     conform(rep, 'C09', groups)
     rep.rule = ('TC19 subtype 1/2 frames: boundary product of component fields {0,1,2,3,511,512,1022,1023}^2 x signs, every value '
                 'of each component, all 2x512 vertical-rate codes, diagonals/axes, near-integer-degree pairs, %d random%s; as update '
@@ -1926,6 +1935,9 @@ def cli_pair_events(rng, n):
             blk.append(df17(5, a2 + 0x100, me_airpos(11, 0, enc_alt12(2000), odd, y or 1, x or 1)))
         at = rng.randrange(len(lines) + 1)
         lines[at:at] = blk
+        # an aircraft with a complete airborne pair right where the first -O variant puts its observer
+        a3 = 0x486000 + k
+        lines += [df17(5, a3, me_airpos(11, 0, enc_alt12(3000), odd, *cpr_encode(52.2572 + 0.0004 * odd, 3.9194, odd))) for odd in (0, 1, 0)]
         data = ''.join(l + '\n' for l in lines).encode()
         ra = cli.run_cli(binary, base + oa + ['--update=-1'], data=data, timeout=60)
         rb = cli.run_cli(binary, base + ob + ['--update=-1'], data=data, timeout=60)
